@@ -163,7 +163,7 @@ def main():
                       'the guard name is reserved and unused',
             'baseline_off_cmd': 'cd /repo && /venv/bin/python -m pytest -ra -q -p no:cacheprovider --timeout=900 '
                                 '--continue-on-collection-errors',
-            'source_commits': fixes,
+            'source_commits': [],   # no hook or instrumentation commit exists; the unguarded fix: commits are listed in fix_commits.txt
             'add_only': True,
         },
         'engines': [{
@@ -174,7 +174,7 @@ def main():
                               'with vm_compute inside coqc',
         }],
         'checks': checks,
-        'notes': 'See DESIGN.md. known_findings.json lists open/fixed findings; seeded/ holds confirmed seeded changes.',
+        'notes': 'See DESIGN.md (section 0: status). No hooks were added to /repo. The %d unguarded "fix:" commits in /repo (genuine defects found by the checks, each repaired minimally) are listed in fix_commits.txt and known_findings.json (all with status fixed; there is no open finding); seeded/ holds the confirmed seeded changes and which check catches them.' % len(fixes),
         'not_applicable': [{'property_id': p, 'reason': NOT_YET} for p in ALL if p not in CLAIMED],
     }
     with open(os.path.join(HERE, 'MANIFEST.json'), 'w') as f:
